@@ -431,6 +431,32 @@ def run(ctx: Any, prog: Program) -> None:
                               '(`models/swarm/Bayonet/...` comes back lower-cased), so the binary format does not round-trip what the text format does', func=q11, text=f'{q11}: strings written unfolded')
     ctx.shape('C16.Q1', n_sd >= 10, edb11, edb11.tree, f'{n_sd} str_dict()/write() calls found in the serialisers of _engine_db.py', text='database string writes')
 
+    # Q6 (numbers): helper arguments are formatted exactly.  `{x:g}` / `%g` keep six significant digits and switch to exponent form at 1e6:
+    # frustum(52.734375, 4, 1250000.5) is exported as frustum(52.7344, 4, 1.25e+06) and parses back as other numbers.  Colour components
+    # (whole numbers 0-255) are the only arguments written that way.
+    hm16 = prog.module('_fgd_helpers')
+    for q16, fl16 in hm16.all_funcs().items():
+        if not q16.endswith('.export'):
+            continue
+        for f16 in fl16:
+            for fv in [x for x in ast.walk(f16) if isinstance(x, ast.FormattedValue) and x.format_spec is not None and any(isinstance(c, ast.Constant) and str(c.value).strip().endswith(('g', 'e', 'G')) for c in ast.walk(x.format_spec))]:
+                colour = any(k in U(fv.value).casefold() for k in ('color', 'colour', 'tint', '.r', '.g', '.b')) or (isinstance(fv.value, ast.Name) and len(fv.value.id) == 1 and fv.value.id in 'rgb') \
+                    or any(isinstance(a_, (ast.For, ast.comprehension)) and any(k in U(a_.iter).casefold() for k in ('color', 'colour', 'tint')) for a_ in ast.walk(f16) if any(fv is y for y in ast.walk(a_)))
+                ctx.check('C16.Q6', colour, hm16, fv, f'{q16} formats `{U(fv.value)[:30]}` with `{U(fv)[:30]}`: six significant digits (and exponent form from 1e6) - a numeric helper argument with more digits is exported as another '
+                          'number than the helper holds', func=q16, text=f'{q16}: `{U(fv)[:30]}` formats exactly')
+    # Q1 (order): the binary serialisers write collections in the order the definition holds them.  `sorted(...)` over a field (spawnflags by
+    # mask) gives a canonical file but another definition: flags_list order is what the text export writes.
+    for q11, fl11 in prog.module('_engine_db').all_funcs().items():
+        if 'serialise' not in q11 or 'unserialise' in q11:
+            continue
+        for f11 in fl11:
+            for lp11 in [l for l in walk_no_nested(f11) if isinstance(l, ast.For)]:
+                it11 = lp11.iter
+                if isinstance(it11, ast.Call) and dotted(it11.func) in ('sorted', 'reversed', 'set', 'frozenset') and it11.args and isinstance(it11.args[0], ast.Attribute) and isinstance(it11.args[0].value, ast.Name) \
+                        and it11.args[0].value.id not in ('self',) and not (isinstance(it11.args[0], ast.Call)):
+                    ctx.check('C16.Q1', False, prog.module('_engine_db'), it11, f'{q11} writes `{U(it11.args[0])}` in `{U(it11)[:40]}` order: the list comes back reordered from the database, while the text format keeps the '
+                              'order of the definition - the two formats no longer hold the same information', func=q11, text=f'{q11}: `{U(it11.args[0])[:30]}` written in stored order')
+
     # Q3 (record-local values): every argument of a record constructor inside a parse loop is assigned in the same iteration before it is used
     ctx.rule('C16.Q7', 'values put into a parsed record (Resource / KVDef / IODef) are assigned in the iteration that builds the record, never carried over from the previous one', floor=1)
     RECORDS = {'Resource', 'KVDef', 'IODef'}
@@ -1218,6 +1244,7 @@ def run(ctx: Any, prog: Program) -> None:
 
 
 MUTANTS: List[Dict[str, Any]] = [
+    {'id': 'spawnflags_written_sorted', 'file': '_engine_db.py', 'find': "        for mask, name, default, tags in kvdef.flags_list:", 'replace': "        for mask, name, default, tags in sorted(kvdef.flags_list):", 'expect': 'C16.Q1', 'note': 'round 14'},
     {'id': 'resource_paths_folded_in_database', 'file': '_engine_db.py', 'find': "        file.write(str_dict(res.filename))", 'replace': "        file.write(str_dict(res.filename.lower()))", 'expect': 'C16.Q1', 'note': 'round 13'},
     {'id': 'helper_blank_args_dropped', 'file': 'fgd.py', 'find': "                args = [\n                    arg.strip()\n                    for arg in\n                    token_value.split(',')\n                ]", 'replace': "                args = [\n                    arg.strip()\n                    for arg in\n                    token_value.split(',')\n                    if arg.strip()\n                ]", 'expect': 'C16.Q10', 'note': 'round 12'},
     {'id': 'get_fgd_from_block_lists', 'file': '_engine_db.py', 'find': "            for clsname, ent in self.ent_map.items():\n                assert isinstance(ent, EntityDef), (clsname, ent)\n                self.fgd.entities[clsname] = ent", 'replace': "            for classes, data in self.unparsed:\n                for clsname in classes:\n                    ent = self.ent_map[clsname.casefold()]\n                    assert isinstance(ent, EntityDef), (clsname, ent)\n                    self.fgd.entities[clsname.casefold()] = ent", 'expect': 'C16.Q5', 'note': 'round 12'},
